@@ -3,11 +3,11 @@
   (`enterMultiWait`, `unblock`, `reenterWait`), `blockOnListChangeWorker`, `dataStore.leaveListBlock`.
 
   A blocked client is linked into the wait queue of every one of its keys. A push to key `k` hands a
-  wake-up to the longest waiters of `k`, unlinks each of them from ALL its queues and notes the key that
+  mwake-up to the longest waiters of `k`, unlinks each of them from ALL its queues and notes the key that
   raised the signal (`wokenBy`). A woken client looks at its keys in order and takes from the first
   non-empty one — which need not be `k`. `passAcross = true` is the repaired behaviour (D90, 5537925): a
-  client that was woken for `k` and served from another key hands the wake-up to `k`'s next waiter.
-  A client that leaves (or is served at its first look) with a wake-up it never consumed wakes one waiter
+  client that was woken for `k` and served from another key hands the mwake-up to `k`'s next waiter.
+  A client that leaves (or is served at its first look) with a mwake-up it never consumed wakes one waiter
   of each of its keys (`leaveListBlock`).
 
   Only list LENGTHS are tracked (which element goes where is the subject of `Block`). Clients are kept in
@@ -19,8 +19,8 @@ namespace RedisEmu
 structure MC where
   keys : List Nat            -- the keys it waits for, in the order it looks at them
   pending : Bool             -- registered; the look that follows registration is still to come
-  token : Option Nat         -- holds a wake-up it has not acted on yet, raised by this key
-  queued : Bool              -- linked in the wait queues of its keys (a wake-up unlinks it from all of them)
+  token : Option Nat         -- holds a mwake-up it has not acted on yet, raised by this key
+  queued : Bool              -- linked in the wait queues of its keys (a mwake-up unlinks it from all of them)
   deriving DecidableEq, Repr
 
 structure MState where
@@ -36,29 +36,29 @@ def incLen (len : Nat → Nat) (k n : Nat) : Nat → Nat := fun j => if j = k th
 
 def MC.waitsOn (c : MC) (k : Nat) : Bool := c.queued && c.keys.contains k
 
-/-- hand a wake-up raised by key `k` to the first `n` clients in `k`'s queue -/
-def wake (k : Nat) : Nat → List MC → List MC
+/-- hand a mwake-up raised by key `k` to the first `n` clients in `k`'s queue -/
+def mwake (k : Nat) : Nat → List MC → List MC
   | 0, cs => cs
   | _ + 1, [] => []
   | n + 1, c :: r =>
-    if c.waitsOn k then { c with queued := false, token := some k } :: wake k n r
-    else c :: wake k (n + 1) r
+    if c.waitsOn k then { c with queued := false, token := some k } :: mwake k n r
+    else c :: mwake k (n + 1) r
 
-/-- `leaveListBlock` with an unused wake-up: one waiter of each key is woken -/
-def wakeEach : List Nat → List MC → List MC
+/-- `leaveListBlock` with an unused mwake-up: one waiter of each key is woken -/
+def mwakeEach : List Nat → List MC → List MC
   | [], cs => cs
-  | k :: r, cs => wakeEach r (wake k 1 cs)
+  | k :: r, cs => mwakeEach r (mwake k 1 cs)
 
 inductive MStep where
   | push (k n : Nat)
   | register (keys : List Nat)
   | look (i : Nat)            -- the look after registering, of the client at position i
-  | retry (i : Nat)           -- a woken client acts on its wake-up
+  | retry (i : Nat)           -- a woken client acts on its mwake-up
   | steal (k : Nat)           -- a non-blocking pop by somebody else
   | leave (i : Nat)           -- timeout / CLIENT UNBLOCK / disconnect
 
 def mstep (passAcross : Bool) (s : MState) : MStep → MState
-  | .push k n => { len := incLen s.len k n, cs := wake k n s.cs }
+  | .push k n => { len := incLen s.len k n, cs := mwake k n s.cs }
   | .register keys => { s with cs := s.cs ++ [{ keys := keys, pending := true, token := none, queued := true }] }
   | .look i =>
     match s.cs[i]? with
@@ -67,8 +67,8 @@ def mstep (passAcross : Bool) (s : MState) : MStep → MState
       if c.pending then
         match firstNonEmpty s.len c.keys with
         | some j =>
-          -- served at once: the command completes; a wake-up delivered meanwhile was never consumed
-          { len := decLen s.len j, cs := if c.token.isSome then wakeEach c.keys (s.cs.eraseIdx i) else s.cs.eraseIdx i }
+          -- served at once: the command completes; a mwake-up delivered meanwhile was never consumed
+          { len := decLen s.len j, cs := if c.token.isSome then mwakeEach c.keys (s.cs.eraseIdx i) else s.cs.eraseIdx i }
         | none => { s with cs := s.cs.set i { c with pending := false } }
       else s
   | .retry i =>
@@ -82,7 +82,7 @@ def mstep (passAcross : Bool) (s : MState) : MStep → MState
         match firstNonEmpty s.len c.keys with
         | some j =>
           { len := decLen s.len j,
-            cs := if passAcross && j != k then wake k 1 (s.cs.eraseIdx i) else s.cs.eraseIdx i }
+            cs := if passAcross && j != k then mwake k 1 (s.cs.eraseIdx i) else s.cs.eraseIdx i }
         | none => { s with cs := s.cs.set i { c with token := none, queued := true } }   -- woken in vain: back into its queues, same place
   | .steal k => { s with len := decLen s.len k }
   | .leave i =>
@@ -90,21 +90,21 @@ def mstep (passAcross : Bool) (s : MState) : MStep → MState
     | none => s
     | some c =>
       if c.pending then s else
-      { s with cs := if c.token.isSome then wakeEach c.keys (s.cs.eraseIdx i) else s.cs.eraseIdx i }
+      { s with cs := if c.token.isSome then mwakeEach c.keys (s.cs.eraseIdx i) else s.cs.eraseIdx i }
 
 def mrun (passAcross : Bool) (s : MState) (steps : List MStep) : MState := steps.foldl (mstep passAcross) s
 
-/-- wake-ups raised by key `k` and not acted on yet -/
+/-- mwake-ups raised by key `k` and not acted on yet -/
 def tokens (k : Nat) (cs : List MC) : Nat := cs.countP fun c => c.token == some k
 
 /-- nobody waits passively for key `k`: whoever is linked in its queue is about to look at the lists -/
 def NoPassive (k : Nat) (cs : List MC) : Prop := ∀ c ∈ cs, c.waitsOn k = true → c.pending = true
 
-/-- the accounting invariant of key `k`: as many wake-ups outstanding as the list has elements, or nobody
+/-- the accounting invariant of key `k`: as many mwake-ups outstanding as the list has elements, or nobody
     is waiting passively for it -/
 def MInv (s : MState) (k : Nat) : Prop := s.len k ≤ tokens k s.cs ∨ NoPassive k s.cs
 
-/-- whoever holds a wake-up is unlinked from the queues -/
+/-- whoever holds a mwake-up is unlinked from the queues -/
 def Unlinked (cs : List MC) : Prop := ∀ c ∈ cs, c.token.isSome = true → c.queued = false
 
 end RedisEmu
